@@ -11,8 +11,10 @@ Plane are the code points modelled here).
 Deviations from JavaScript the document itself states and the spec follows:
 `replace(search, replace)` replaces **every** occurrence (its example turns
 "Hello World" into "Hell0 W0rld"); `split()` without separator splits at
-white space.  Text primitives (`Model.Text`) are shared with the model: they
-are the common reading of the Go and the JavaScript library documentation.
+white space.  `replace` and `split` are written here on their own, by
+occurrence positions, the way ECMA-262 phrases them; prefix / suffix tests,
+white-space trimming, `fields`, ASCII case mapping and the search `indexFrom`
+are the list-library readings shared with `Model.Text`.
 -/
 import Model.Text
 namespace Spec.JsStr
@@ -35,12 +37,33 @@ def substring (s : List Char) (start : Int) (stop : Option Int) : List Char :=
     | some e => min e.toNat len
   (s.take (max a b)).drop (min a b)
 
-def replace (s search repl : List Char) : List Char := replaceAll s search repl
+/-- replace every occurrence of a non-empty `old`: scan left to right; where an
+occurrence starts, emit the replacement and continue behind it (`fuel` ≥ length) -/
+def replaceScan (old new : List Char) : Nat → List Char → List Char
+  | 0, _ => []
+  | _ + 1, [] => []
+  | f + 1, c :: t =>
+    if old.isPrefixOf (c :: t) then new ++ replaceScan old new f ((c :: t).drop old.length)
+    else c :: replaceScan old new f t
+
+/-- every occurrence replaced; the empty search text occurs before every
+character and at the end ("abc" → "-a-b-c-") -/
+def replace (s search repl : List Char) : List Char :=
+  if search.isEmpty then repl ++ s.flatMap (fun c => c :: repl) else replaceScan search repl s.length s
+
+/-- the pieces of `l` between consecutive occurrences of a non-empty `sep`:
+up to the first occurrence, then the pieces of what follows it -/
+def pieces (sep : List Char) : Nat → List Char → List (List Char)
+  | 0, l => [l]
+  | f + 1, l =>
+    match indexFrom sep l 0 with
+    | none => [l]
+    | some i => l.take i :: pieces sep f (l.drop (i + sep.length))
 
 def split (s : List Char) (sep : Option (List Char)) : List (List Char) :=
   match sep with
   | none => fields s
-  | some p => Model.Text.split s p
+  | some p => if p.isEmpty then s.map (fun c => [c]) else pieces p s.length s
 
 def trim (s : List Char) : List Char := trimSpace s
 def toUpperCase (s : List Char) : List Char := upper s
